@@ -281,6 +281,19 @@ def system_gate(ctx, results):
                'gate_input': g['input']}
         if i_out != m_out:
             ctx.mismatch(inp, i_out, m_out, 'check_build_status (real job inside _handle_pull_request)')
+        # "unless the build check is bypassed by an admin ...": a bypass that comes from the comments needs a comment
+        # of an admin who is not the author naming the option (or the command line)
+        gi = g['input']
+        if gi.get('bypass_settings') and 'comments' in gi:
+            cmdline = ((r.get('history') or {}).get('cfg') or {}).get('cmd_line_options') or []
+            by_admin = any(a in gi['admins'] and a != gi['author'] and 'bypass_build_status' in t
+                           for a, t in gi['comments'])
+            ctx.count('system_gate:bypass_by_option')
+            if not by_admin and 'bypass_build_status' not in cmdline:
+                ctx.violation(inp, 'no bypass', 'bypass_build_status in effect',
+                              'the build check of a real evaluation is bypassed although no admin (other than the '
+                              'author) wrote the option and the command line does not set it',
+                              key=core.canon({'what': 'build bypass without an admin'}))
         if vec and all(v in STATUSES for v in vec):
             got = impl_verdict(i_out)
             if got != s_verdict:
